@@ -832,12 +832,6 @@ def _history_cases(draw, tier):
     return {"objects": objs, "ops": ops}
 
 
-def _table_of_result(mdl_ids_names, rows, vals, columns):
-    names = mdl_ids_names
-    return {"names": names, "rows": rows, "table": {r: [None if v is None else float(v) for v in vs] for r, vs in zip(rows, vals)},
-            "columns": columns, "ncols": len(vals[0]) if vals else 1}
-
-
 @subcheck(PROP, "repeat_history", strategy=_history_cases, quick=900, thorough=30000,
           doc="stateful: a pool of live pandas objects, a list of broadcasts pool[i] x pool[j] (results join the pool); after EVERY step the "
               "results satisfy the alignment oracle against the model tables and EVERY object in the pool still equals its model "
